@@ -34,7 +34,9 @@ LEVEL_NOTE = ('Trusted: gcc 12 / binutils / glibc loader of this machine '
               '(ELF, Linux only); readelf for RUNPATH.')
 ASSUMPTIONS = ['only C, ELF/Linux, gcc']
 
-DIRS = ['', '', 'lib', 'lib/deep', 'bin', 'out/a/b', 'x y']
+# (including directories whose names are string prefixes of a sibling's)
+DIRS = ['', '', 'lib', 'lib/deep', 'bin', 'out/a/b', 'x y', 'libexec',
+        'out/a/b2', 'out/a']
 
 
 @st.composite
@@ -102,9 +104,19 @@ def render(case, src):
     L = ["project('c14', version='1.0')"]
     for i, lib in enumerate(case['libs']):
         body = ''.join('int f_{}(void);\n'.format(d) for d in lib['deps'])
-        body += 'int f_{}(void) {{ return {}{}; }}\n'.format(
-            i, i + 1, ''.join(' + f_{}()'.format(d) for d in lib['deps']))
+        # the value lives in an exported variable: code of a static library
+        # that ends up in a shared one must be position independent
+        # dependents reach the library through h_<i>, which lives in a
+        # second object that the program itself never refers to
+        body = ''.join('int h_{}(void);\n'.format(d) for d in lib['deps'])
+        body += 'int g_{0} = {1};\nint f_{0}(void) {{ return g_{0}{2}; }}\n' \
+            .format(i, i + 1, ''.join(' + h_{}()'.format(d)
+                                      for d in lib['deps']))
         sandbox.write_file(os.path.join(src, 'l{}.c'.format(i)), body)
+        sandbox.write_file(
+            os.path.join(src, 'l{}_b.c'.format(i)),
+            'int f_{0}(void);\nint h_{0}(void) {{ return f_{0}(); }}\n'
+            .format(i))
         fn = {'static': 'static_library', 'shared': 'shared_library',
               'dual': 'library', 'versioned': 'shared_library'}[lib['kind']]
         name = (lib['dir'] + '/' if lib['dir'] else '') + 'l{}'.format(i)
@@ -113,8 +125,8 @@ def render(case, src):
         extra = ''
         if lib['kind'] == 'versioned':
             extra = ", version='1.2.3', soversion='1'"
-        L.append("v{} = {}({!r}, ['l{}.c']{}{})".format(
-            i, fn, name, i, ', libs=[{}]'.format(deps) if deps else '', extra))
+        L.append("v{0} = {1}({2!r}, ['l{0}.c', 'l{0}_b.c']{3}{4})".format(
+            i, fn, name, ', libs=[{}]'.format(deps) if deps else '', extra))
     for j, exe in enumerate(case['exes']):
         body = '#include <stdio.h>\n'
         body += ''.join('int f_{}(void);\n'.format(d) for d in exe['deps'])
